@@ -71,6 +71,14 @@ VH_MAIN
     Gstat.procstat = procstat;
 
     info = pdgstrf_pivotL(0, JCOL, u, &usepr, perm_r, inv_perm_r, inv_perm_c, &pivrow, &Glu, &Gstat);
+#ifdef NOCAND
+    /* C06: a column without any candidate row (NSUPR == NSUPC) must be reported as singular without
+       touching memory outside the supernode / the permutation arrays (CBMC's own checks are on) */
+    vh_assert(info == JCOL + 1, "no candidate row: reported as exactly singular");
+    for (i = 0; i < 16; ++i) if (i < LP || i >= LP + NSUPR) vh_assert(lsub[i] == -99, "no write outside the supernode's row list");
+    VH_WITNESS();
+    return 0;
+#endif
 
     {
         double *col = pre + NSUPC * NSUPR;     /* pre-state of column JCOL */
